@@ -396,7 +396,10 @@ fn collect_fields<'a>(
                     None => true,
                     Some(type_condition) if type_condition == introspection_type_name => true,
                     Some(type_condition) if object.implements.contains(type_condition) => true,
-                    _ => false,
+                    Some(type_condition) => matches!(
+                        schema.0.types.get(type_condition),
+                        Some(Type::Union(union)) if union.possible_types.contains(&object.name)
+                    ),
                 };
                 if type_condition_matched {
                     collect_fields(
